@@ -37,6 +37,22 @@ fn main() {
 
 fn real_main(args: Vec<String>) -> i32 {
     match args[1].as_str() {
+        "grep-terms" => {
+            // simfony-mc grep-terms <needle>... : print family terms (quick families) containing all needles
+            let needles: Vec<String> = args[2..].to_vec();
+            for (name, fam, depth) in props::c01::families(true) {
+                let mut g = gen::TermGen::new(fam.clone());
+                for ty in fam.universe.clone() {
+                    for t in g.terms(&ty, depth) {
+                        let r = lang::render_expr(&t).replace('\n', " ");
+                        if needles.iter().all(|n| r.contains(n.as_str())) {
+                            println!("{name} {} :: {r}", ty.render());
+                        }
+                    }
+                }
+            }
+            0
+        }
         "sizes" => {
             // print the sizes of the term families (diagnostic)
             for quick in [true, false] {
